@@ -309,3 +309,17 @@ case("C06", "only-xi-reset", "VIOLATION", [(D, "\t\t\t\tXi, rj = [], []\n", "\t\
 case("C06", "pairs-shuffle-major", "VIOLATION", [(D, "\t\t\tXi.append(i // n_shuffles)\n\t\t\trj.append(i % n_shuffles)", "\t\t\tXi.append(i % X.shape[0])\n\t\t\trj.append(i // X.shape[0])")], "PAIRS")
 case("C06", "refs-layout-swapped", "VIOLATION", [(D, "references_ = torch.cat(references_).reshape(X.shape[0], n_shuffles, \n\t\t\t*X.shape[1:])", "references_ = torch.cat(references_).reshape(n_shuffles, X.shape[0], \n\t\t\t*X.shape[1:]).transpose(0, 1)")], "R-AXES")
 case("C06", "input-masked-in-place", "VIOLATION", [(D, "\tattributions, references_, Xi, rj, attr_ = [], [], [], [], []", "\tattributions, references_, Xi, rj, attr_ = [], [], [], [], []\n\tX *= 1")], "R-PURE")
+
+# ------------------------------------------------------------------ C14
+prefix("C14", "D9-prefix-score-zero", TT, "932245e", "LOOKUP-GUARD", "tools.tomtom._p_values")
+case("C14", "lookup-guard-ge0", "VIOLATION", [(TT, "\t\t\t\tif score > 0:\n\t\t\t\t\tresults[i, 0] = B_cdfs[nt, uint64(score-1)]", "\t\t\t\tif score >= 0:\n\t\t\t\t\tresults[i, 0] = B_cdfs[nt, uint64(score-1)]")], "LOOKUP-GUARD")
+case("C14", "lookup-guard-ge1-spelling", "HOLDS", [(TT, "\t\t\t\tif score > 0:\n\t\t\t\t\tresults[i, 0] = B_cdfs[nt, uint64(score-1)]", "\t\t\t\tif score >= 1:\n\t\t\t\t\tresults[i, 0] = B_cdfs[nt, uint64(score-1)]")])
+case("C14", "merge-cubed", "VIOLATION", [(TT, "p = 1 - (1 - p) ** 2", "p = 1 - (1 - p) ** 3")], "R-TERM")
+case("C14", "merge-expanded-form", "HOLDS", [(TT, "p = 1 - (1 - p) ** 2", "p = 2 * p - p * p")])
+case("C14", "merge-strand-by-forward", "VIOLATION", [(TT, "if results[i, 1] <= results[i+n, 1]:", "if results[i, 1] >= results[i+n, 1]:")], "STRAND")
+case("C14", "overlap-wrong", "VIOLATION", [(TT, "overlap = min(k+1, nq) - max(0, k-nt+1)", "overlap = min(k+1, nq) - max(0, k-nt)")], "OVERLAP")
+case("C14", "overlap-equivalent", "HOLDS", [(TT, "overlap = min(k+1, nq) - max(0, k-nt+1)", "overlap = min(min(k+1, nq), min(nt, nt+nq-1-k))")])
+case("C14", "offset-shifted", "VIOLATION", [(TT, "results[i, 2] = k - nq + 1", "results[i, 2] = k - nq")], "SCAN")
+case("C14", "rebuild-loop-short", "VIOLATION", [(TT, "\tfor i in range(1, min(nq, t_max+1)):\n\t\tB[i] = -1", "\tfor i in range(1, min(nq, t_max)):\n\t\tB[i] = -1")], "R-SIB")
+case("C14", "no-complement", "VIOLATION", [(TT, "\t\tfor j in range(n):\n\t\t\tB[i, j] = 1 - B[i, j]\n", "")], "CDF")
+case("C06", "trigger-equivalent-spelling", "HOLDS", [(D, "if len(Xi) == batch_size or i == (n-1):", "if i == n - 1 or len(Xi) == batch_size:")])
